@@ -117,6 +117,8 @@ func (c12) Plan(tier string, seed int64) []core.Scenario {
 			out = append(out, core.Sc("revformat").WithN("fmt", f).WithN("order", order))
 		}
 	}
+	// arity over ws when the params member is absent altogether (shared with C09)
+	out = append(out, core.Scenario{Kind: "ws-noparams", N: map[string]int{"conns": 2}, S: map[string]string{}})
 	ct, _ := catClientType()
 	per := 6
 	for i := 0; i < ct.NumField(); i += per {
@@ -141,6 +143,8 @@ func (p c12) Run(sc core.Scenario) core.Result {
 		p.dynamic(sc, r)
 	case "revalias": // client-side (reverse) handlers resolve aliases through their own table only
 		c16{}.aliasIsolation(sc, r)
+	case "ws-noparams":
+		c09{}.wsNoParams(sc, r)
 	case "revformat": // reverse direction under a formatter shared by client and server
 		c16{}.revFormat(sc, r)
 	}
